@@ -132,7 +132,7 @@ func junkOrigin(rng *rand.Rand, s Sem) string {
 	}
 	b := base.String()
 	host := base.Host
-	switch rng.Intn(30) {
+	switch rng.Intn(31) {
 	case 0:
 		return b
 	case 1:
@@ -195,6 +195,8 @@ func junkOrigin(rng *rand.Rand, s Sem) string {
 		return "x" + b
 	case 28:
 		return base.Scheme + "://" + strings.Replace(host, ".", "..", 1)
+	case 29: // degenerate bracket shapes
+		return base.Scheme + "://" + []string{"[]", "[]:" + fmt.Sprint(1+rng.Intn(65535)), "[", "]", "[]:", "[:]", "[]]", "[[]"}[rng.Intn(8)]
 	default:
 		return base.Scheme + "://" + junkBytes(rng, 1+rng.Intn(40))
 	}
@@ -368,7 +370,7 @@ func emitServe(t *tracer, m *cors.Middleware, dbg bool, rs reqSpec, pre http.Hea
 		"req":    hdrJSON(rs.H),
 		"origin": ol, "o1b": o1b, "o1u": o1u, "no": len(ol),
 		"acrm": linesOf(rs.H, hACRM), "acrmt": tokLines(linesOf(rs.H, hACRM), false),
-		"acrh": linesOf(rs.H, hACRH), "acrht": tokLines(linesOf(rs.H, hACRH), true),
+		"acrh": linesOf(rs.H, hACRH), "acrht": tokLines(linesOf(rs.H, hACRH), true), "acrhb": codeLines(linesOf(rs.H, hACRH)),
 		"acrpn": linesOf(rs.H, hACRPN),
 		"resp":  absResp(w), "acaob": acaob, "raw": rawAC(w),
 		"invoked": s.invoked, "sameReq": s.sameReq, "sameW": s.sameW, "body": len(w.body),
@@ -396,8 +398,17 @@ func emitServe(t *tracer, m *cors.Middleware, dbg bool, rs reqSpec, pre http.Hea
 	return false
 }
 
+func codeLines(lines []string) [][]int {
+	out := [][]int{}
+	for _, l := range lines {
+		out = append(out, codes(l))
+	}
+	return out
+}
+
 func (s Sem) toJSONb() map[string]any {
 	j := s.toJSON()
+	j["hNamesb"] = codeLines(s.HNames)
 	pats := []map[string]any{}
 	for _, p := range s.Pats {
 		pats = append(pats, map[string]any{"scheme": codes(p.Scheme), "wild": p.Wild, "host": codes(p.Host), "port": p.Port})
@@ -431,6 +442,18 @@ func cmdServe(args []string) {
 	if *prop == "C11" {
 		sems = append(sems, Sem{Pass: true, Status: 204, Pna: "none"}, Sem{Pass: true, Status: 204, Pna: "none", MaxAge: 1})
 	}
+	nameSet := map[string]bool{"authorization": true}
+	for _, s := range sems {
+		for _, n := range s.HNames {
+			nameSet[n] = true
+		}
+	}
+	var allNames []string
+	for n := range nameSet {
+		allNames = append(allNames, n)
+	}
+	sort.Strings(allNames)
+	t.emit(map[string]any{"ev": "Names", "names": allNames})
 	var served, rejected, panics, preflights, processed int
 	var samples []any
 	for ci, s := range sems {
